@@ -1,11 +1,17 @@
 #!/bin/bash
-# tools/seedtest.sh <patch.diff> <prop> [<prop>...]: apply a seeded change to /repo, run the quick checks, undo it
-P=$1; shift
-git -C /repo apply "$P" || { echo "patch does not apply"; exit 2; }
+# tools/seedtest.sh <patch.diff> <prop> [<prop>...]
+# Applies a seeded change to a scratch worktree of /repo (never to /repo itself), builds the
+# checkers against that copy through the overlay (VERIF_REPO), runs the quick checks, removes the copy.
+P=$(readlink -f "$1"); shift
+V=$(cd "$(dirname "$0")/.." && pwd)
+S=$(mktemp -d /tmp/seedrepo.XXXXXX); rmdir $S
+git -C /repo worktree add -q --detach $S HEAD || exit 2
+trap 'git -C /repo worktree remove --force $S 2>/dev/null; rm -rf /tmp/seedbuild.$$ /tmp/seedout.$$' EXIT
+git -C $S apply "$P" || { echo "patch does not apply"; exit 2; }
+export VERIF_REPO=$S VERIF_BUILD=/tmp/seedbuild.$$ VERIF_OUT=/tmp/seedout.$$
 for prop in "$@"; do
-  out=$(cd /verif && timeout 900 ./check $prop quick 2>&1); rc=$?
+  out=$(cd $V && timeout 1800 ./check $prop ${TIER:-quick} 2>&1); rc=$?
   echo "== $(basename $(dirname $P)) $prop: exit=$rc violations=$(echo "$out" | grep -c '^VIOLATION')"
   echo "$out" | grep -A1 '^VIOLATION' | grep -v '^VIOLATION' | grep -v '^--' | head -2 | cut -c1-260
   [ $rc = 2 ] && echo "$out" | tail -5 | cut -c1-300
 done
-git -C /repo checkout -- .
